@@ -25,11 +25,11 @@ def build(wt, opts):
     return sh(['cmake', '--build', wt + '/_build'])
 
 
-def demo_run(wt, demo, tag):
+def demo_run(wt, demo, tag, extra=''):
     exe = '%s/_demo_%s' % (wt, tag)
     cxx = demo.endswith('.cpp') or demo.endswith('.cc')
     cmd = ['g++' if cxx else 'gcc', '-O1', '-o', exe, demo, '-I' + wt + '/src', '-I' + wt + '/_build', '-DHAVE_CONFIG_H',
-           wt + '/_build/src/libascon_static.a']
+           ] + [x.replace('{wt}', wt) for x in extra.split()] + [wt + '/_build/src/libascon_static.a']
     if cxx:
         cmd.insert(1, '-std=gnu++11')
     else:
@@ -53,7 +53,7 @@ def confirm(a):
         assert sh(['git', '-C', REPO, 'worktree', 'add', '--detach', wt, 'HEAD']).returncode == 0
         p = build(wt, opts)
         assert p.returncode == 0, 'baseline build failed: ' + p.stdout[-2000:]
-        rc0, out0 = demo_run(wt, os.path.abspath(a.demo), 'base')
+        rc0, out0 = demo_run(wt, os.path.abspath(a.demo), 'base', a.demo_extra)
         log['demo_unchanged'] = {'exit': rc0, 'tail': (out0 or '')[-300:]}
         assert rc0 == 0, 'demo does not pass on the unchanged tree: %s %s' % (rc0, out0)
         p = sh(['git', '-C', wt, 'apply', os.path.abspath(a.patch)])
@@ -67,7 +67,7 @@ def confirm(a):
             assert p.returncode == 0 and '100% tests passed' in p.stdout and 'out of 114' in p.stdout, 'tests fail with the patch: ' + '\n'.join(tail)
         # (with non-default cmake options the result above is informational: the pinned suite is the default configuration,
         #  which is rebuilt and tested below)
-        rc1, out1 = demo_run(wt, os.path.abspath(a.demo), 'patched')
+        rc1, out1 = demo_run(wt, os.path.abspath(a.demo), 'patched', a.demo_extra)
         log['demo_patched'] = {'exit': rc1, 'tail': (out1 or '')[-300:]}
         assert rc1 not in (0, None), 'demo does not fail with the patch: %s %s' % (rc1, out1)
         if opts:
@@ -90,7 +90,7 @@ def confirm(a):
     shutil.copy(a.demo, d + '/demo' + os.path.splitext(a.demo)[1])
     if a.notes and os.path.exists(a.notes):
         shutil.copy(a.notes, d + '/notes.md')
-    meta = {'name': a.name, 'property': a.prop, 'needs': a.needs or '', 'cmake_options_for_demo': a.cmake or '',
+    meta = {'name': a.name, 'property': a.prop, 'needs': a.needs or '', 'cmake_options_for_demo': a.cmake or '', 'demo_extra_compile_args': a.demo_extra or '',
             'confirmed': log, 'confirmed_at_repo_commit': sh(['git', '-C', REPO, 'rev-parse', 'HEAD']).stdout.strip(),
             'source': 'independent sub-agent given only the property text and a scratch worktree', 'detected_by': {}}
     json.dump(meta, open(d + '/meta.json', 'w'), indent=1)
@@ -128,7 +128,7 @@ def main():
     sub = ap.add_subparsers(dest='cmd')
     c = sub.add_parser('confirm')
     c.add_argument('name'); c.add_argument('prop'); c.add_argument('patch'); c.add_argument('demo')
-    c.add_argument('--cmake', default=''); c.add_argument('--needs', default=''); c.add_argument('--notes', default='')
+    c.add_argument('--cmake', default=''); c.add_argument('--demo-extra', default=''); c.add_argument('--needs', default=''); c.add_argument('--notes', default='')
     r = sub.add_parser('run'); r.add_argument('name'); r.add_argument('--checks', default=''); r.add_argument('--tier', default='quick')
     ra = sub.add_parser('runall'); ra.add_argument('--tier', default='quick'); ra.add_argument('--only-missing', action='store_true')
     a = ap.parse_args()
